@@ -127,7 +127,8 @@ def gen_field(rng, avail, ctxmap, allow_spec=True):
         elif r < 0.20:
             spec = ':ff'
         elif r < 0.30:
-            spec = ':' + rng.choice(['', 'rf', 'ff']) + rng.choice(['>5', '<6', '^7', '*^9', '4', '_>3', '10'])
+            spec = ':' + rng.choice(['', 'rf', 'ff']) + rng.choice(['>5', '<6', '^7', '*^9', '4', '_>3', '10',
+                                                                     'r>6', 'f<6', 'f^7', 'r^5'])
         elif r < 0.34 and avail:
             # nested spec expansion {a:>{n}}
             spec = ':' + rng.choice(['>', '<', '']) + '{' + rng.choice(avail) + '}'
